@@ -908,6 +908,23 @@ class BasisManaged(Managed):
         
     def unprotect_basis(self):
         self.is_basis_protected = False
+
+    def __copy__(self):
+        """Shallow copy which is known to the basis management
+        
+        A copy made while the object is represented in the basis of 
+        a basis context (e.g. the result of the `apply` methods of 
+        superoperators) has to be registered with that context. Otherwise
+        it would keep the identifier of the basis after the context is left.
+        
+        """
+        cls = self.__class__
+        new = cls.__new__(cls)
+        new.__dict__.update(self.__dict__)
+        cb = new.get_current_basis()
+        if (cb != 0) and (cb in self.manager.basis_registered):
+            self.manager.register_with_basis(cb, new)
+        return new
         
         
 
